@@ -488,7 +488,10 @@ class NthDefaultTimes(_DefaultTimes):
     def value(
         self, times, path: np.array, jump_path: np.array, payoff_underlying=None
     ) -> np.array:
-        default_times = super().value(times, path, jump_path, payoff_underlying)
+        # all default times first (the base class' value() would dispatch back into this class' _value_log)
+        default_times = _DefaultTimes._value_log(
+            self, times, path, np.log(jump_path), payoff_underlying
+        )
         index_smallest = np.argpartition(default_times, self._k)[: self._k + 1]
         default_time = np.amax(default_times[index_smallest])
         return default_time
